@@ -1,6 +1,7 @@
 package main
 
 import (
+	"strconv"
 	"encoding/json"
 	"go/types"
 	"flag"
@@ -358,6 +359,18 @@ func runCheck(cfg *runConfig) int {
 	timeout := 30
 	if cfg.tier == "thorough" {
 		timeout = 60
+	}
+	// scratch: one directory per run; those of earlier runs of this property whose process is gone are removed
+	if olds, _ := filepath.Glob(filepath.Join(cfg.verif, "work", cfg.prop+"-*")); true {
+		for _, d := range olds {
+			pid, err := strconv.Atoi(d[strings.LastIndex(d, "-")+1:])
+			if err != nil {
+				continue
+			}
+			if _, err := os.Stat(fmt.Sprintf("/proc/%d", pid)); err != nil {
+				os.RemoveAll(d)
+			}
+		}
 	}
 	work := filepath.Join(cfg.verif, "work", fmt.Sprintf("%s-%d", cfg.prop, os.Getpid()))
 	pool := newPool(work, cfg.workers, timeout, cfg.tier == "thorough")
